@@ -99,11 +99,11 @@ def run(ctx):
         c = kv(cl)
         hx = data.hex() or "-"
         if c is None:
-            ctx.violation("library refused a literals buffer: %s" % cl[:200], dict(kind="tie", op=cop[:400000], c=cl[:2000], model=""))
+            ctx.violation("library refused a literals buffer: %s" % cl[:200], dict(kind="tie", op=cop[:40000000], c=cl[:2000], model=""))
             continue
         mode = c["mode"]
         if kind != "huf" and mode != kind:
-            ctx.violation("library wrote mode %s for op %s" % (mode, kind), dict(kind="tie", op=cop[:400000], c=cl[:2000], model=""))
+            ctx.violation("library wrote mode %s for op %s" % (mode, kind), dict(kind="tie", op=cop[:40000000], c=cl[:2000], model=""))
             continue
         if mode in ("raw", "rle"):
             m_in.append("%s %s" % (mode, hx)); meta.append((cop, c, "bytes"))
@@ -113,7 +113,7 @@ def run(ctx):
             lh, tree, direct = tree_of(c["section"])
             m_in.append("huf %d %s %s %s" % (log, ws, "-" if direct else tree, hx)); meta.append((cop, c, "direct" if direct else "given"))
         else:
-            ctx.violation("library reused a table although none was valid", dict(kind="tie", op=cop[:400000], c=cl[:2000], model=""))
+            ctx.violation("library reused a table although none was valid", dict(kind="tie", op=cop[:40000000], c=cl[:2000], model=""))
             continue
         m_in.append("dec %s %s" % (c["section"], hx)); meta.append((cop, c, "dec"))
     rc, out, err = zv.run([zv.driver_exe(), "litenc"], "\n".join(m_in) + "\n", timeout=1800)
@@ -129,15 +129,15 @@ def run(ctx):
         if what == "dec":
             if m.get("rt") != "ok":
                 ctx.violation("the decoder model does not read the library's literals section back: rt=%s" % m.get("rt"),
-                              dict(kind="tie", op=cop[:400000], c=c["section"][:4000], model=ml[:300]))
+                              dict(kind="tie", op=cop[:40000000], c=c["section"][:4000], model=ml[:300]))
             continue
         stats[what if what in ("direct", "given") else c["mode"]] += 1
         if m.get("section") != c["section"]:
             ctx.violation("literals section bytes differ between the library and the model (%s, mode %s)" % (what, c["mode"]),
-                          dict(kind="tie", op=cop[:400000], c=c["section"][:4000], model=(m.get("section") or ml)[:4000]))
+                          dict(kind="tie", op=cop[:40000000], c=c["section"][:4000], model=(m.get("section") or ml)[:4000]))
         if m.get("rt") != "ok":
             ctx.violation("Block.decodeLiterals does not invert the literals writer model: rt=%s" % m.get("rt"),
-                          dict(kind="tie", op=mop[:400000], c=c["section"][:4000], model=ml[:300]))
+                          dict(kind="tie", op=mop[:40000000], c=c["section"][:4000], model=ml[:300]))
     return dict(evaluations=n, **stats)
 
 
